@@ -184,6 +184,8 @@ func createImageFunctions() { //nolint:funlen // this is a group of related func
 			if x < 0 || y < 0 {
 				return object.Errorf("image sizes must be positive")
 			}
+			// 4 bytes per pixel for the image and as many again for the rasterizer's buffers once something is drawn.
+			object.MustBeOk(x * y * 8 / object.ObjectSize)
 			img := image.NewNRGBA(image.Rect(0, 0, x, y))
 			images[args[0]] = GrolImage{Image: img, Vect: vector.NewRasterizer(x, y), W: x, H: y}
 			return args[0]
